@@ -115,4 +115,19 @@ theorem emu_refines_step_long {t : Term.T} {e : Emu} {rows cols : Nat} (op : EOp
   rw [← emuStep_firstOnly e f pm hf h84]
   exact emu_refines_step_all _ tok hv' s2
 
+/-- The token of a one-parameter function is never an SGR token. -/
+theorem tokOf_one_not_sgr (f : Nat) (pm : List Param) (tok : Term.Tok) (hf : f ∈ onePs)
+    (h : tokOf (.csi [f] pm) = some tok) : ∀ ps, tok ≠ .sgr ps := by
+  intro ps hc
+  subst hc
+  simp only [onePs, List.mem_cons, List.not_mem_nil, or_false] at hf
+  rcases hf with rfl | rfl | rfl | rfl | rfl | rfl | rfl | rfl | rfl | rfl | rfl | rfl | rfl | rfl | rfl | rfl | rfl | rfl <;>
+  · simp only [tokOf] at h
+    cases hp : plainParams pm with
+    | none => rw [hp] at h; simp at h
+    | some l =>
+      rw [hp] at h
+      simp at h
+      try (split at h <;> simp at h)
+
 end VaxisModel.Lemmas.EmuRefine
